@@ -85,6 +85,20 @@ QUAT = {
 }
 
 
+DEC = {"one": "", "id": "D", "transform_vector": "D V", "transform_point": "D P", "concat": "D D", "mul": "D D",
+       "concat_self": "D D", "inverse_transform": "D", "inverse_transform_vector": "D V", "look_at": "P P V",
+       "look_at_lh": "P P V", "look_at_rh": "P P V", "to_matrix": "D"}
+ANGLE = {"to_rad": "x", "to_deg": "x", "full_turn": "", "turn_div_2": "", "turn_div_3": "", "turn_div_4": "",
+         "turn_div_6": "", "normalize": "x", "normalize_signed": "x", "opposite": "x", "bisect": "x x", "sin": "x",
+         "cos": "x", "tan": "x", "sin_cos": "x", "csc": "x", "sec": "x", "cot": "x", "asin": "x", "acos": "x",
+         "atan": "x", "atan2": "x x", "add": "x x", "sub": "x x", "neg": "x", "mul_s": "x x", "div_s": "x x",
+         "div_a": "x x", "rem": "x x", "zero": "", "is_zero": "x", "sum_list": "x*", "sum_list_ref": "x*"}
+PROJ = {"proj.ortho": "x x x x x x", "proj.ortho_s": "x x x x x x", "proj.frustum": "x x x x x x",
+        "proj.frustum_s": "x x x x x x", "proj.perspective": "x x x x", "proj.perspective_s": "x x x x",
+        "proj.perspective_deg": "x x x x", "proj.planar": "x x x x x", "proj.planar_s": "x x x x x",
+        "proj.to_perspective": "x x x x"}
+
+
 def build():
     sig = {}
     for n in (1, 2, 3, 4):
@@ -103,6 +117,15 @@ def build():
     for k, s in MAT_SPECIAL.items():
         sig[k] = s.split()
     for k, v in QUAT.items():
+        sig[k] = v.split()
+    for ty, (d, p, vv) in {"dq": ("x Q V3", "P3", "V3"), "db3": ("x Q V3", "P3", "V3"), "db2": ("x x V2", "P2", "V2")}.items():
+        for op, sg in DEC.items():
+            sig[f"{ty}.{op}"] = sg.replace("D", d).replace("P", p).replace("V ", vv + " ").split() if not sg.endswith("V") \
+                else (sg[:-1].replace("D", d).replace("P", p) + vv).split()
+    for ty in ("rad", "deg"):
+        for op, sg in ANGLE.items():
+            sig[f"{ty}.{op}"] = sg.split()
+    for k, v in PROJ.items():
         sig[k] = v.split()
     return sig
 
